@@ -58,7 +58,7 @@ class PEP440Parser:
             return None
 
         return tuple(
-            part.lower()
+            int(part) if part.isdigit() else part.lower()
             for part in cls._local_version_separators.split(match.group("local"))
         )
 
